@@ -1916,8 +1916,12 @@ reduces the cyclomatic complexity of stack.string() by handling the end-stage
 processing of a request for string representation of the receiver.
 */
 func (r stack) assembleStringStack(str []string, ot string, oc stackType) string {
-	// Padding char (or lack thereof)
-	pad := padValue(!r.positive(nspad), "")
+	// Padding char (or lack thereof). Note that padValue
+	// cannot be used here, as it never pads a zero string.
+	var pad string
+	if !r.positive(nspad) {
+		pad = string(rune(32))
+	}
 
 	builder := newStringBuilder()
 
